@@ -60,6 +60,8 @@ def run(rep):
     out = []
     unmodelled = 0
     verdicts = {"must": 0, "may": 0, "not-number": 0}
+    hist_verdicts = {"must": 0, "may": 0, "not-number": 0}
+    hist_steps = {}
     for op, impl, model, spec in rows:
         kind = op.split(" ", 2)[1]
         if model == "unmodelled":
@@ -76,6 +78,24 @@ def run(rep):
                 spec = impl if impl in ("err", "nonnum") else spec[1:]
             else:
                 verdicts["must"] += 1
+        elif kind == "H":
+            # a history on ONE long-lived reader: every step judged by the specification's answer to that step ALONE
+            # (Spec/LiteralHistory.lean: the value of a literal is a function of its spelling)
+            si, ss = impl.split(" | "), spec.split(" | ")
+            if len(si) == len(ss):
+                res = []
+                for a, sp in zip(si, ss):
+                    if sp == "!num":
+                        hist_verdicts["not-number"] += 1
+                        sp = a if a in ("err", "nonnum") else "not-a-number"
+                    elif sp.startswith("?"):
+                        hist_verdicts["may"] += 1
+                        sp = a if a in ("err", "nonnum") else sp[1:]
+                    else:
+                        hist_verdicts["must"] += 1
+                    res.append(sp)
+                spec = " | ".join(res)
+                hist_steps[len(si)] = hist_steps.get(len(si), 0) + 1
         elif kind == "r" and spec != "-" and impl != spec and _nil_as_symbol(spec) == impl:
             keys[op] = "rt r n"
         out.append((op, impl, model, spec))
@@ -90,6 +110,8 @@ def run(rep):
         k = t[1]
         if k in ("l", "j"):
             return "literal-spelling"
+        if k == "H":
+            return "literal-history"
         if k == "k":
             return "literal-text"
         if k == "e":
@@ -116,6 +138,9 @@ def run(rep):
     rep.coverage["ops_by_kind"] = kinds
     rep.coverage["unmodelled_ops"] = unmodelled
     rep.coverage["literal_verdicts"] = verdicts
+    rep.coverage["history_ops"] = {"lines_by_number_of_steps": {str(k): v for k, v in sorted(hist_steps.items())}, "step_verdicts": hist_verdicts,
+                                   "rule": "rt H <mode> step…: 2-6 spellings / print-read round trips on ONE long-lived reader (p: one Parser object, r: (read \"…\") on one interpreter, "
+                                           "e: the literal evaluated on one interpreter); every step is judged by Spec.require / the printed number itself, independently of the steps before it"}
     rep.coverage["exhaustive"] = True
     rep.coverage["rule"] = ("p = printed text (impl vs model), r = read back (impl vs spec = the value itself, vs model), e = evaluated JSON-like value, "
                             "l = numeric spelling read (impl vs Spec.require vs model), j = Spec.mathValue/nearestF64 vs math/big+strconv, k = hand-written string/char literal texts. "
